@@ -54,6 +54,7 @@ var Dev = map[string][]string{
 	"empty":  {""},
 	"one":    {"1", "01", "001"},
 	"two":    {"2", "3", "02"},
+	"three":  {"3", "03", "003"},
 	"zero":   {"0", "00", "000"},
 	"neg":    {"-3", "-1", "-2"},
 	"exp":    {"2e0", "1E0", "2e1"},
